@@ -44,14 +44,19 @@ def h_edgelist(ex, n_fit, n_tr, joint, fixed):
         a, b = fresh_int("lab0", 0, None), fresh_int("lab1", 0, None)
         assume(a != b)
         register("row_labels", [a, b])
-        kw["row_label_dictionary"] = SymDict([(a, 0), (b, 1)])
+        # user-supplied indices need not be 0..n-1: gaps are allowed (the matrix then has max index + 1 rows)
+        i0, i1 = fresh_int("idx0", 0, 3), fresh_int("idx1", 0, 3)
+        assume(i0 != i1)
+        i0, i1 = int(i0), int(i1)
+        register("row_indices", [i0, i1])
+        kw["row_label_dictionary"] = SymDict([(a, i0), (b, i1)])
     est = el.EdgeListVectorizer(joint_space=joint, **kw)
     r = call(est.fit, [tuple(e) for e in E])
     check("fit returns the estimator itself", r is est)
     M = est._train_matrix
-    nr = len(est.row_label_dictionary_)
+    nr = (max(i0, i1) + 1) if fixed else len(est.row_label_dictionary_)
     nc = len(est.column_label_dictionary_)
-    check("fit matrix shape", M.shape == (nr, nc))
+    check("fit matrix shape (one row / column per index up to the largest fitted index)", M.shape == (nr, nc))
     _cells("fit_transform cell = sum of the values of the edges labelled (r, c)", M, E, est)
     T0 = call(est.transform, [tuple(e) for e in E])
     ok = T0.shape == M.shape
